@@ -216,6 +216,9 @@ func writeDefinitions(w *formatting.IndentedWriter, ns *dsl.Namespace, symbolTab
 				change := p.Versions[versionLabel]
 				if change != nil {
 					fmt.Fprintf(w, "R\"(%s)\",\n", change.PreviousSchema)
+				} else if previousSchema, ok := p.PreviousSchemas[versionLabel]; ok {
+					// semantically unchanged, but the schema text may differ (renamed or aliased types)
+					fmt.Fprintf(w, "R\"(%s)\",\n", previousSchema)
 				} else {
 					fmt.Fprintf(w, "%s::schema_,\n", common.AbstractWriterName(p))
 				}
